@@ -5,9 +5,9 @@ import Ufo2ftModel.Props.C12
 C01, the charstring layer (optimizeCFF = 0): the relative Type 2 encoding that `T2CharStringPen` produces from ABSOLUTE rounded
 points is decoded by the Type 2 interpreter to exactly those rounded points - rounding errors cannot accumulate.
 
-Main theorems: `C01_codec_roundtrip`, `C01_codec_no_drift` (+ `naive_pen_drifts`), `C01_codec_integral`,
+Main theorems: `C01_codec_roundtrip`, `C01_codec_no_drift` (+ `naive_pen_drifts`, `naive_pen_drift_unbounded`), `C01_codec_integral`,
 `C01_codec_charstring` (token level, width operand included), `C01_codec_cff2` (the CFF→CFF2 clean-up),
-`C01_codec_glyph` (from the glyph set to what a reader of the compiled charstring sees).
+`C01_codec_glyph` (from the glyph set to what a reader of the compiled charstring sees), `pen_eq_C12` (same pen as C12's `toCmds`).
 -/
 namespace Ufo2ft.C01
 open Ufo2ft List
@@ -508,5 +508,120 @@ example : ∀ v ∈ tokNums (charString1 (some 5) (1/2) exOps), IsInt v := (C01_
 /-- a program that does NOT come from the pen (an rlineto first, after a width operand) is rejected by the interpreter model:
     the hypothesis of `exec_width` is needed -/
 example : exec [.num 5, .num 1, .num 1, .op .rlineto] = none := by decide +kernel
+
+/-! ### link to C12's integer command model -/
+
+def opQ : C12.Op → Op
+  | .moveTo x y => .moveTo ((x : Q), (y : Q))
+  | .lineTo x y => .lineTo ((x : Q), (y : Q))
+  | .curveTo a b c d e f => .curveTo ((a : Q), (b : Q)) ((c : Q), (d : Q)) ((e : Q), (f : Q))
+  | .closePath => .closePath
+
+def cmdQ : C12.Cmd → T2Cmd
+  | .rmoveto a b => .rmoveto (a : Q) (b : Q)
+  | .rlineto a b => .rlineto (a : Q) (b : Q)
+  | .rrcurveto a b c d e f => .rrcurveto (a : Q) (b : Q) (c : Q) (d : Q) (e : Q) (f : Q)
+
+theorem roundCoord_int (tol : Q) (ht : tol ≥ 1/2) (k : Int) : roundCoord tol (k : Q) = (k : Q) := by
+  unfold roundCoord
+  rw [if_neg (by grind), if_pos ht, otRound_int]
+
+/-- on integer drawings (what C12 observes at the default tolerance) the pen modelled here emits exactly the commands of
+    C12's `toCmds`, the input of its `specializeCommands` passes: one pen model, two views -/
+theorem pen_eq_C12 (tol : Q) (ht : tol ≥ 1/2) : ∀ (d : C12.Drawing) (c : Int × Int),
+    penFrom tol ((c.1 : Q), (c.2 : Q)) (d.map opQ) = (C12.toCmdsFrom c d).map cmdQ := by
+  have hr := roundCoord_int tol ht
+  intro d
+  induction d with
+  | nil => intro c; rfl
+  | cons o l ih =>
+    intro c
+    obtain ⟨cx, cy⟩ := c
+    cases o with
+    | moveTo x y =>
+      simp only [map_cons, opQ, penFrom, penP, roundP, hr, C12.toCmdsFrom, cmdQ, Rat.intCast_sub]
+      rw [ih (x, y)]
+    | lineTo x y =>
+      simp only [map_cons, opQ, penFrom, penP, roundP, hr, C12.toCmdsFrom, cmdQ, Rat.intCast_sub]
+      rw [ih (x, y)]
+    | curveTo x1 y1 x2 y2 x3 y3 =>
+      simp only [map_cons, opQ, penFrom, penP, roundP, hr, C12.toCmdsFrom, cmdQ, Rat.intCast_sub]
+      rw [ih (x3, y3)]
+    | closePath =>
+      simp only [map_cons, opQ, penFrom, C12.toCmdsFrom]
+      exact ih (cx, cy)
+
+theorem penCmds_eq_C12 (tol : Q) (ht : tol ≥ 1/2) (d : C12.Drawing) : penCmds tol (d.map opQ) = (C12.toCmds d).map cmdQ :=
+  pen_eq_C12 tol ht d (0, 0)
+
+/-! ### the naive pen drifts without bound -/
+
+/-- `n` further points 2/5 apart on the x axis after the point `(x, 0)`, then the closePath -/
+def stairs : Q → Nat → List Op
+  | _, 0 => [.closePath]
+  | x, n + 1 => .lineTo (x + 2/5, 0) :: stairs (x + 2/5) n
+
+def driftN (n : Nat) : List Op := .moveTo (0, 0) :: stairs 0 n
+
+theorem naive_stairs : ∀ (n : Nat) (x : Q), naivePen (1/2) (x, 0) (stairs x n) = replicate n (T2Cmd.rlineto 0 0) := by
+  intro n
+  induction n with
+  | zero => intro x; rfl
+  | succ n ih =>
+    intro x
+    have e : x + 2/5 - x = 2/5 := by grind
+    have r1 : roundCoord (1/2) (2/5) = 0 := by decide +kernel
+    have r2 : roundCoord (1/2) ((0 : Q) - 0) = 0 := by decide +kernel
+    simp only [stairs, naivePen, e, r1, r2, replicate_succ]
+    rw [ih (x + 2/5)]
+
+theorem decode_zero_lines : ∀ (n : Nat),
+    decodeFrom (0, 0) true (replicate n (T2Cmd.rlineto 0 0)) = replicate n (Op.lineTo (0, 0)) ++ [Op.closePath] := by
+  intro n
+  induction n with
+  | zero => rfl
+  | succ n ih =>
+    have z : ((0 : Q) + 0) = 0 := by grind
+    simp only [replicate_succ, cons_append, decodeFrom, if_true, nil_append, z]
+    rw [ih]
+
+theorem stairs_wf : ∀ (n : Nat) (x : Q), wfFrom true (stairs x n) = true := by
+  intro n
+  induction n with
+  | zero => intro x; rfl
+  | succ n ih => intro x; simp only [stairs, wfFrom]; exact ih _
+
+theorem stairs_reach : ∀ (n : Nat) (x : Q), Op.lineTo (x + (2/5) * ((n + 1 : Nat) : Q), 0) ∈ stairs x (n + 1) := by
+  intro n
+  induction n with
+  | zero => intro x; simp only [stairs, mem_cons]; left; congr 2; simp
+  | succ n ih =>
+    intro x
+    have := ih (x + 2/5)
+    have e : x + 2/5 + 2/5 * ((n + 1 : Nat) : Q) = x + 2/5 * ((n + 1 + 1 : Nat) : Q) := by
+      rw [Rat.natCast_add (n + 1) 1]; simp only [show ((1 : Nat) : Q) = 1 from rfl]; grind
+    rw [e] at this
+    exact mem_cons_of_mem _ this
+
+/-- **naive_pen_drift_unbounded**: with the DELTAS rounded instead of the absolute points, the well-formed outline of n + 1
+    points 2/5 apart decodes to n + 1 points at the origin although the source reaches x = 2n/5: the error exceeds any bound,
+    while the real pen stays within 1/2 at every position (`C01_codec_no_drift`). -/
+theorem naive_pen_drift_unbounded (n : Nat) :
+    wfOutline (driftN n) = true ∧
+    decode (naivePen (1/2) (0, 0) (driftN n)) = .moveTo (0, 0) :: replicate n (.lineTo (0, 0)) ++ [.closePath] ∧
+    (0 < n → Op.lineTo ((2/5) * (n : Q), 0) ∈ driftN n) := by
+  refine ⟨stairs_wf n 0, ?_, ?_⟩
+  · have r2 : roundCoord (1/2) ((0 : Q) - 0) = 0 := by decide +kernel
+    have z : ((0 : Q) + 0) = 0 := by grind
+    simp only [driftN, naivePen, r2, naive_stairs, decode, decodeFrom, z, decode_zero_lines]
+    simp
+  · intro hn
+    obtain ⟨m, rfl⟩ : ∃ m, n = m + 1 := ⟨n - 1, by omega⟩
+    have := stairs_reach m 0
+    rw [show (0 : Q) + 2/5 * ((m + 1 : Nat) : Q) = 2/5 * ((m + 1 : Nat) : Q) by grind] at this
+    exact mem_cons_of_mem _ this
+
+example : decode (encode .v2 (1/2) (driftN 5)) =
+    [.moveTo (0, 0), .lineTo (0, 0), .lineTo (1, 0), .lineTo (1, 0), .lineTo (2, 0), .lineTo (2, 0), .closePath] := by decide +kernel
 
 end Ufo2ft.C01
